@@ -6222,6 +6222,14 @@ impl Deserialize for bit_vec::BitVec<u32> {
                 let storage_ptr = storage.as_ptr() as *mut u8;
                 let storage_bytes: &mut [u8] = std::slice::from_raw_parts_mut(storage_ptr, 4 * num_words);
                 deserializer.read_bytes_to_buf(storage_bytes)?;
+                if numbits > num_words.saturating_mul(32) {
+                    return Err(SavefileError::GeneralError {
+                        msg: format!(
+                            "Corrupt file - BitVec claims {} bits but only {} bytes of storage",
+                            numbits, numbytes
+                        ),
+                    });
+                }
                 ret.set_len(numbits);
             }
             Ok(ret)
@@ -6388,6 +6396,14 @@ impl Deserialize for bit_vec08::BitVec<u32> {
                 let storage_ptr = storage.as_ptr() as *mut u8;
                 let storage_bytes: &mut [u8] = std::slice::from_raw_parts_mut(storage_ptr, 4 * num_words);
                 deserializer.read_bytes_to_buf(storage_bytes)?;
+                if numbits > num_words.saturating_mul(32) {
+                    return Err(SavefileError::GeneralError {
+                        msg: format!(
+                            "Corrupt file - BitVec claims {} bits but only {} bytes of storage",
+                            numbits, numbytes
+                        ),
+                    });
+                }
                 ret.set_len(numbits);
             }
             Ok(ret)
